@@ -11,7 +11,7 @@ VF_PROP selects which property's postconditions are asserted.
 """
 from vf.h import *
 from vf import det
-from vf.util import pick
+from vf.util import pick, stable_hash
 
 import queue
 import threading
@@ -41,6 +41,7 @@ det.pin(events, _executor, unit, engine_core)
 import schemathesis.engine.context as _ctxmod  # noqa: E402
 
 det.pin(_ctxmod)
+_ctxmod.hash = stable_hash  # EngineContext.cache_outcome keys by hash(case): evaluated outside tracing (CrossHair makes hash() a fresh symbolic int)
 
 _OK = {"responses": {"200": {"description": "OK"}}}
 SCHEMA = schemathesis.openapi.from_dict({"openapi": "3.0.2", "info": {"title": "t", "version": "1"}, "paths": {"/a": {"get": dict(_OK)}, "/b": {"get": dict(_OK)}}})
@@ -609,6 +610,7 @@ class HashCase:
 def unique_inputs(h1: int, h2: int, h3: int, h4: int, o1: int, o2: int, o3: int, o4: int, unique: bool) -> bool:
     """
     pre: all(0 <= h <= 2 for h in (h1, h2, h3, h4)) and all(0 <= o <= 2 for o in (o1, o2, o3, o4))
+    pre: unique == bool(param(0) // 3 % 2) and h1 == param(0) % 3
     post: _
     """
     engine = make_engine(-1, None, unique_inputs=unique)
@@ -691,7 +693,7 @@ OBLIGATIONS = [
        timeout=120, functions=["schemathesis.engine.control.ExecutionControl.count_failure"], symbolic="max_failures and the current counter: unbounded ints; 0-3 further failures",
        bounds="any counter value below the limit; up to 3 steps"),
     Ob(fn="unique_inputs", props=("C12",), clause="with unique-inputs the same request is never sent twice and its cached outcome (success, failure, error) is reported again",
-       timeout={"quick": 200, "thorough": 600}, functions=["schemathesis.engine.phases.unit._executor.cached_test_func", "schemathesis.engine.context.EngineContext.cache_outcome/get_cached_outcome"],
+       timeout={"quick": 200, "thorough": 600}, params=range(6), functions=["schemathesis.engine.phases.unit._executor.cached_test_func", "schemathesis.engine.context.EngineContext.cache_outcome/get_cached_outcome"],
        symbolic="sequence of request hashes (3 values) and the API's outcome for each (ok / check failure / network error)", bounds={"quick": "3 requests", "thorough": "4 requests"},
        stubs=["Case replaced by an object with the given hash; the test body by a stub"]),
 ]
